@@ -93,7 +93,10 @@ def main():
                     send({"id": req.get("id"), "spec": env.spec})
                     continue
                 profile = get_profile(req["profile"])
-                res = execute(env, profile, req["seed"], req.get("tier", "quick"), req.get("replay"))
+                rp = req.get("replay")
+                if rp is not None and rp.get("generate"):
+                    rp = None   # forced routing only (selftest): generate under this worker's hash seed
+                res = execute(env, profile, req["seed"], req.get("tier", "quick"), rp)
                 res["id"] = req.get("id")
                 send(res)
             except BaseException:
